@@ -1,6 +1,8 @@
 package hx
 
 import (
+	"fmt"
+	"hash/fnv"
 	"time"
 
 	"pgregory.net/rapid"
@@ -28,3 +30,12 @@ func (f *Failure) Error() string { return f.Tag + ": " + f.Msg }
 
 // Ms is a shorthand.
 func Ms(n int) time.Duration { return time.Duration(n) * time.Millisecond }
+
+// Fingerprint hashes a workload description; harnesses mix it into the
+// schedule signature so that "distinct" counts distinct (workload, faults,
+// schedule) triples, not schedules alone.
+func Fingerprint(v ...interface{}) string {
+	h := fnv.New64a()
+	fmt.Fprintf(h, "%+v", v)
+	return fmt.Sprintf("wl:%016x", h.Sum64())
+}
